@@ -220,7 +220,11 @@ func vfGenHistory(rt *rapid.T) *vfHistory {
 		h.Steps = append(h.Steps, vfStep{Op: "stop"}, vfStep{Op: "start"})
 	case "cut", "cutcompact":
 		h.Steps = append(h.Steps, vfStep{Op: "cut"})
-		cur = vfGenWrites(rt, h, cur, rapid.IntRange(0, 6).Draw(rt, "nCut"), "cut.")
+		minCut := 0
+		if h.Fault == "cutcompact" {
+			minCut = 1 // the forced watch-cancel is only interesting with changes the watch misses
+		}
+		cur = vfGenWrites(rt, h, cur, rapid.IntRange(minCut, 6).Draw(rt, "nCut"), "cut.")
 		if h.Fault == "cutcompact" {
 			h.Steps = append(h.Steps, vfStep{Op: "compact"})
 		}
@@ -374,6 +378,7 @@ func TestVerifC19Syncer(t *testing.T) {
 
 	// write with retry (all writes are idempotent in content; retries only happen while the
 	// server is not reachable yet, i.e. when nothing was applied)
+	broken := new(string)
 	doWrite := func(rt *rapid.T, base string, st vfStep) {
 		deadline := time.Now().Add(90 * time.Second)
 		for {
@@ -403,13 +408,18 @@ func TestVerifC19Syncer(t *testing.T) {
 				return
 			}
 			if time.Now().After(deadline) {
+				*broken = fmt.Sprintf("write %s keeps failing: %v", st, err)
 				rt.Fatalf("VF-INCONCLUSIVE write %s keeps failing: %v", st, err)
 			}
 			time.Sleep(50 * time.Millisecond)
 		}
 	}
 
+	// once the bed is broken (server did not come back) every further case is inconclusive at once
 	rapid.Check(t, func(rt *rapid.T) {
+		if *broken != "" {
+			rt.Fatalf("VF-INCONCLUSIVE test bed broken earlier: %s", *broken)
+		}
 		h := vfGenHistory(rt)
 		base := fmt.Sprintf("/vf19/%d", atomic.AddInt64(&vfC19Case, 1))
 		pull := time.Duration(h.PullMs) * time.Millisecond
@@ -424,8 +434,10 @@ func TestVerifC19Syncer(t *testing.T) {
 			if !healed {
 				bed.relay.Heal()
 			}
-			if !serverUp {
-				bed.vfStartServer(120 * time.Second)
+			if !serverUp && *broken == "" {
+				if err := bed.vfStartServer(120 * time.Second); err != nil {
+					*broken = fmt.Sprintf("etcd server did not restart: %v", err)
+				}
 			}
 			if syncer != nil {
 				syncer.Close()
@@ -524,6 +536,7 @@ func TestVerifC19Syncer(t *testing.T) {
 				sawFault = true
 			case "start":
 				if err := bed.vfStartServer(120 * time.Second); err != nil {
+					*broken = fmt.Sprintf("etcd server did not restart: %v", err)
 					rt.Fatalf("VF-INCONCLUSIVE etcd server did not restart: %v", err)
 				}
 				serverUp = true
